@@ -742,12 +742,13 @@ func c04ErrorPropagation(c *Ctx, r *Report, f *ssa.Function, rule string) {
 
 func checkC05(c *Ctx, r *Report) {
 	r.Explanation = "Round-tripping is a law over values; this check decides its structural preconditions: (R1) the two halves of the codec agree - same kind case list (apart from interface values, which only the encoder accepts), same special types, same struct conventions, both use parseFieldParameters, and both process list elements with the list's tag cleared (cross-check of two implementations of one interface); (R2) every type of the schema is decodable by the decoder's matching rule: every SEQUENCE/SET member and every CHOICE alternative carries a tagNum (the decoder matches by context tag only), tags are unique per structure, every leaf kind is in the decoder's case list - exhaustive over cdr/cdrType; (R3) unsupported constructs (OBJECT IDENTIFIER, open types) return an error in both halves; (R4) reflect Set in the decoder's special-type cases is type-correct (shared with C16.R5); (R5) every header the encoder can emit is read back with a non-negative content length and an offset inside the input - the post-conditions of parseTagAndLength, including that long-form length octets are accumulated as an unsigned quantity (shared with C16.R1): a decoder that sign-extends length octets cannot read back members of 128..255 octets."
-	r.Undecided = []string{"equality of decoded and original values (e.g. parseInt64 performs no sign extension, so negative integers do not round-trip; the embedded-CHOICE offset uses the inner header length) - value-level, visible by reading, not decidable by a structural rule that would not also reject correct reformulations"}
+	r.Undecided = []string{"equality of decoded and original values in general (e.g. the embedded-CHOICE offset uses the inner header length) - value-level, visible by reading, not decidable by a structural rule that would not also reject correct reformulations"}
 	r.Exhaustive = true
 	r.rule("C05.R1", "encoder and decoder agree on kinds, special types, conventions and element parameters", 5)
 	r.rule("C05.R2", "every schema type is decodable: members and alternatives tagged, tags unique, leaf kinds handled (exhaustive)", 190)
 	r.rule("C05.R3", "unsupported constructs return an error in both halves", 2)
 	r.rule("C05.R4", "decoder stores values of the right type (reflect Set assignability)", 3)
+	r.rule("C05.R7", "INTEGER / ENUMERATED contents are decoded as two's complement (sibling of the encoder's signed minimal octets)", 2)
 	r.rule("C05.R6", "decoding depends on the bytes, the target type and the parameters only: no mutable package-level state on the decode path (memo tables keyed by reflect.Type identity excepted)", 6)
 	r.rule("C05.R5", "the decoder's header parser yields an offset within the input and a non-negative content length (post-conditions proved; shared with C16.R1)", 5)
 
@@ -779,6 +780,7 @@ func checkC05(c *Ctx, r *Report) {
 	c04ErrorPropagationOID(c, r, pf, "C05.R3")
 	c16ReflectSetRule(c, r, "C05.R4")
 	c16Posts(c, r, "C05.R5")
+	c05IntegerSigned(c, r, "C05.R7")
 	codecPurity(c, r, []*ssa.Function{c.fn("cdr/asn", "UnmarshalWithParams"), c.fn("cdr/asn", "Unmarshal")}, modPath+"/cdr/asn", "C05.R6", "decode")
 }
 
